@@ -165,7 +165,14 @@ class PathLaws(Bounded):
             if p.parent().append(p.basename()) != p:
                 return self.fail(case, raw, 'parent_append_basename', string=s)
         # relpath/append inverse against every ancestor and a sibling
-        for start in [P('/'.join(want[:k]), Root.srcdir) for k in range(len(want) + 1)] + [P('zz', Root.srcdir)]:
+        starts = [P('/'.join(want[:k]), Root.srcdir) for k in range(len(want) + 1)] + [P('zz', Root.srcdir)]
+        # directories whose name is a string prefix / extension of a component (src, src.gen, srcs): siblings, not ancestors
+        for k in range(1, len(want) + 1):
+            last = want[k - 1]
+            for sib in (last[:-1], last + 's', last + '.gen', last + ' x'):
+                if sib and sib not in ('.', '..') and not sib.startswith('~'):
+                    starts.append(P('/'.join(want[:k - 1] + [sib]), Root.srcdir))
+        for start in starts:
             rel = p.relpath(start, localize=False)
             back = start.append(rel)
             if back != p:
@@ -179,6 +186,16 @@ class PathLaws(Bounded):
             exp = exp.replace('/', '\\')
         if got != exp:
             return self.fail(case, raw, 'string_is_join_of_base_and_suffix', string=s, got=got, expected=exp)
+        # base directories given as plain strings, written with either separator
+        import ntpath
+        for b in (['/src/dir', '/src/dir/sub'] if case == 'posix' else ['C:/work/src', 'C:\\work\\src', '//server/share/d']):
+            got = p.string({Root.srcdir: b, Root.builddir: b})
+            if case == 'posix':
+                exp = posixpath.normpath(posixpath.join(b, p.suffix)) if p.suffix else b
+            else:
+                exp = ntpath.normpath(ntpath.join(b, *p.split()))
+            if got != exp:
+                return self.fail(case, raw, 'string_is_join_of_string_base_and_suffix', string=s, base=b, got=got, expected=exp)
         return True
 
 
